@@ -217,7 +217,7 @@ def block_comments(text, rng, p=0.06):
     return "\n".join(out)
 
 
-def preproc_lines(text, rng, p=0.06):
+def preproc_lines(text, rng, p=0.15):
     """preprocessor lines (`#ifdef X` ... `#endif`, what classify/preprocessor.py recognises: first non-blank
     character `#`) on lines of their own in front of some lines, in column 0 or indented by blanks, sometimes with a
     blank line before or after: C02 wants them to survive every fix verbatim, C03 counts them as non-layout text"""
@@ -237,10 +237,10 @@ def preproc_lines(text, rng, p=0.06):
                 d = rng.choice(["#ifdef SIMULATION", "#ifndef SYNTHESIS", "#if defined(X)", "#define WIDTH 8", "#pragma once"])
                 if d.startswith("#if"):
                     depth += 1
-            if rng.random() < 0.25:
+            if rng.random() < 0.3:
                 out.append("")
             out.append(ind + d)
-            if rng.random() < 0.25:
+            if rng.random() < 0.4:
                 out.append("")
         out.append(line)
     while depth:
